@@ -28,8 +28,6 @@ type outcome struct {
 	Top   string // top-most non-runtime frame
 }
 
-var frameRe = regexp.MustCompile(`^([^\s(][^\n]*?)\(.*\)$`)
-
 // guard runs f under recover and attributes a panic to a source function.
 func guard(f func() error) (o outcome) {
 	defer func() {
@@ -45,11 +43,25 @@ func guard(f func() error) (o outcome) {
 	return outcome{Class: "ok"}
 }
 
-// panicSite parses debug.Stack() taken inside the recovering deferred function.
+// panicSite parses a Go stack dump that contains the panicking frames and names who is responsible:
+// frames are walked from the panic point towards the callers, skipping runtime and big-number helpers;
+//   * the first fx-core frame met before any dependency entry point  => owner "fx", site = that function
+//     (fx code is the one that handed unvalidated data to whatever dereferenced it);
+//   * a dependency entry point met first (an SDK/ethermint AnteHandle, ValidateBasic, the tx decoder, baseapp)
+//     => owner "dep", site = the top-most non-helper frame.
+// Returned site is "fx:<func>" or "dep:<func>".
 func panicSite(stack string) (site, top string) {
 	lines := strings.Split(stack, "\n")
 	seenPanic := false
-	for i := 0; i < len(lines); i++ {
+	firstNonHelper := ""
+	// a recovered panic may be re-raised by a deferred function (SetUpContextDecorator does): the ORIGINAL panic is the deepest marker
+	start := 0
+	for i, ln := range lines {
+		if strings.HasPrefix(ln, "panic(") || strings.HasPrefix(ln, "runtime.sigpanic") || strings.HasPrefix(ln, "runtime.goPanic") || strings.HasPrefix(ln, "runtime.panic") {
+			start = i
+		}
+	}
+	for i := start; i < len(lines); i++ {
 		ln := lines[i]
 		if strings.HasPrefix(ln, "\t") || strings.HasPrefix(ln, "goroutine ") || ln == "" {
 			continue
@@ -61,29 +73,39 @@ func panicSite(stack string) (site, top string) {
 		if strings.HasPrefix(fn, "panic") || strings.HasPrefix(fn, "runtime.") || strings.HasPrefix(fn, "runtime/debug.") {
 			if strings.HasPrefix(fn, "panic") || strings.HasPrefix(fn, "runtime.gopanic") || strings.HasPrefix(fn, "runtime.panic") || strings.HasPrefix(fn, "runtime.sigpanic") || strings.HasPrefix(fn, "runtime.goPanic") {
 				seenPanic = true
+				firstNonHelper, top = "", ""
 			}
 			continue
 		}
 		if !seenPanic {
-			continue // frames of the deferred recover function itself
+			continue // frames of the recovering deferred function itself
 		}
 		if strings.HasPrefix(fn, "main.") || strings.HasPrefix(fn, "fxverif/") {
 			break // reached the harness
 		}
 		fn = strings.TrimPrefix(fn, "github.com/")
+		fn = closureRe.ReplaceAllString(fn, "")
 		if top == "" {
 			top = fn
 		}
-		if site == "" && strings.HasPrefix(fn, "functionx/fx-core/v8/") {
-			site = strings.TrimPrefix(fn, "functionx/fx-core/v8/")
+		helper := strings.HasPrefix(fn, "math/big.") || strings.HasPrefix(fn, "cosmossdk.io/math.") || strings.HasPrefix(fn, "reflect.")
+		if firstNonHelper == "" && !helper {
+			firstNonHelper = fn
+		}
+		if strings.HasPrefix(fn, "functionx/fx-core/v8/") {
+			return "fx:" + strings.TrimPrefix(fn, "functionx/fx-core/v8/"), top
+		}
+		if strings.HasSuffix(fn, ".AnteHandle") || strings.HasSuffix(fn, ".ValidateBasic") || strings.Contains(fn, "/baseapp.") || strings.Contains(fn, "x/auth/tx.DefaultTxDecoder") {
+			return "dep:" + firstNonHelper, top
 		}
 	}
-	if site == "" {
-		site = top
+	if firstNonHelper == "" {
+		firstNonHelper = top
 	}
-	site = regexp.MustCompile(`\.func\d+(\.\d+)*$`).ReplaceAllString(site, "")
-	return site, top
+	return "dep:" + firstNonHelper, top
 }
+
+var closureRe = regexp.MustCompile(`(\.func\d+)+(\.\d+)*$`)
 
 func short(s string, n int) string {
 	s = strings.Map(func(r rune) rune {
